@@ -266,8 +266,8 @@ func TestC01(t *testing.T) {
 		kit.DoReplay(s, t, rf, run)
 		return
 	}
-	s.SetRule("rapid, class-first construction {authorised-only, violation, recovery, mixed}: worlds of 1-4 validly signed policy states over developer keys 0..5 (rules for refs/heads/main and release with thresholds 1..3, 0-2 delegation levels, optional terminating flags) and logs of 1-24 events {push signed by an authorised / other / de-authorised / unknown / no key, with approvals for exactly this change when the threshold needs them; approval for this or another change; skip/non-skip annotation over 1-3 earlier pushes; policy change; entry for an unrelated ref; propagation entry}. Plus a bounded-exhaustive enumeration of short logs (see enumeration_bound). Oracle: reference model of policy-in-force + delegation walk + credit + recovery, compared with VerifyRefFull (verdict and exact tip), VerifyRef and VerifyRefFromEntry(first entry) for three refs. Non-trivial: an entry on a protected ref plus (a violating signer, an approval, an annotation or a policy change)")
-	opt := wgOptions{Delegation: true, PropProtected: true}
+	s.SetRule("rapid, class-first construction {authorised-only, violation, recovery, mixed}: worlds of 1-4 validly signed policy states over developer keys 0..5, some developers being persons with two keys (rules for refs/heads/main and release with thresholds 1..3, 0-2 delegation levels, optional terminating flags) and logs of 1-24 events {push signed by an authorised / other / de-authorised / unknown / no key, with approvals for exactly this change when the threshold needs them; approval for this or another change; skip/non-skip annotation over 1-3 earlier pushes; policy change; entry for an unrelated ref; propagation entry}. Plus a bounded-exhaustive enumeration of short logs (see enumeration_bound). Oracle: reference model of policy-in-force + delegation walk + credit + recovery, compared with VerifyRefFull (verdict and exact tip), VerifyRef and VerifyRefFromEntry(first entry) for three refs. Non-trivial: an entry on a protected ref plus (a violating signer, an approval, an annotation or a policy change)")
+	opt := wgOptions{Delegation: true, PropProtected: true, TwoKeyPersons: true}
 	kit.Campaign(s, t, "worlds", "world", s.Budget(12_000, 400_000), func(rt *rapid.T) c01Case {
 		cl := map[string]bool{}
 		w := genWorld(rt, opt, cl)
